@@ -55,6 +55,9 @@ CHECKS = {
     "C14": ("Hypothesis-generated components / poses (grid-coincident, fractional, rotated, straddling, outside, negative) vs a float64 reference that evaluates each template at c + R^-1 (X - pos/scale); exact-paste, loader round trip, partition/order metamorphic relations, 2-D vs z-projection differential",
             "Generated-input exploration with a reference-model oracle for the whole volume, exact oracles for grid-coincident poses (paste and loader round trip) and metamorphic/differential relations (component and molecule order, additivity, simulate_2d == projection).",
             "template density confined to the inscribed ball minus 2 voxels; order-0 volumes are compared only for grid-coincident poses (nearest-neighbour ties)", "4/C14"),
+    "C03": ("Hypothesis-generated histories of loader construction / derivation / grouping operations on identity-encoding tomograms vs a list-of-rows model; per-molecule results compared with single-molecule loaders",
+            "Model-based (stateful) exploration: every voxel encodes (tomogram, z, y, x), so the subtomogram returned for row i names the molecule it was cut at; rows, image ids, features, ancestors and group partitions are compared with a Python model after every step, and score/align/landscape/apply rows with single-molecule loaders.",
+            "add_tomogram/add_loader are treated as construction steps (documented to mutate); binning is checked for bookkeeping only (values are C15's)", "4/C03"),
 }
 
 NOT_YET = {}
